@@ -186,4 +186,4 @@ Print Assumptions C03_plain_mode_is_C01_engine.
 Print Assumptions C03_dispatch_by_value.
 Print Assumptions C03_calls_independent.
 From CPL Require Import gen.GenFuns_C03 GenProps.GenFunsEquivC03 GenProps.C03Src. (* source tie: gen/GenFuns_C03.v is regenerated from ca_functions.py on every run *)
-Theorem C03_source_tie : (forall (curr : list Z) (r start len : nat), (1 <= len)%nat -> (1 <= length curr)%nat -> src_memo_key (block_idx start len) curr (Z.of_nat r) = Ok (Z.of_nat start, wrap_take curr (Z.of_nat start - Z.of_nat r)%Z (len + 2 * r)%nat)) /\ (forall start len : nat, src_memo_split (block_idx start len) = (block_idx start (len / 2)%nat, block_idx (start + len / 2)%nat (len - len / 2)%nat)). Proof. exact C03_source_translation_agrees. Qed. Print Assumptions C03_source_tie.
+Theorem C03_source_tie : (forall (curr : list Z) (r start len : nat), (1 <= len)%nat -> (1 <= length curr)%nat -> src_memo_key (block_idx start len) curr (Z.of_nat r) = Ok (Z.of_nat start, wrap_take curr (Z.of_nat start - Z.of_nat r)%Z (len + 2 * r)%nat)) /\ (forall start len : nat, src_memo_split (block_idx start len) = (block_idx start (len / 2)%nat, block_idx (start + len / 2)%nat (len - len / 2)%nat)) /\ (forall (St : Type) (rule : rule1 St) (s : St) (cache : list (list Z * Z)) (lg : list call1) (n : list Z) (c t : nat), get_memoized rule (s, cache, lg) n c t = (let '((sl, cache'), v) := src_get_memoized (fun n => n) (logged1 rule) (s, lg) n c t cache in ((fst sl, cache', snd sl), v))). Proof. exact C03_source_translation_agrees. Qed. Print Assumptions C03_source_tie.
